@@ -45,6 +45,7 @@ type ctl struct {
 	getFault bool
 	// getdelay <ms>: the next point Get sleeps; iterslow <ms> from=<hex>: every Next of an iterator that starts at <hex> sleeps
 	getDelay    time.Duration
+	commitDelay time.Duration
 	iterSlow    time.Duration
 	iterSlowKey []byte
 
@@ -567,6 +568,14 @@ func (b *batchWrap) commitExpiry(ctx context.Context) error {
 func (b *batchWrap) Commit(ctx context.Context) error {
 	if atomic.CompareAndSwapInt32(&b.done, 0, 1) {
 		atomic.AddInt64(&b.w.c.finished, 1)
+	}
+	b.w.c.mu.Lock()
+	cd := b.w.c.commitDelay
+	b.w.c.commitDelay = 0
+	b.w.c.mu.Unlock()
+	if cd > 0 {
+		// commitdelay <ms>: the next batch commit of the engine takes that long (a slow engine)
+		time.Sleep(cd)
 	}
 	if b.delCur != nil {
 		return b.commitExpiry(ctx)
